@@ -8,15 +8,18 @@ import nacl.bindings as nb
 
 from ..prng import Rng, mix
 from ..seams import CLOCK, F, T, AMHLmod, reset_world
+from ..seams import LIB_ERRORS
 from ..core import real
 from ..oracle import (L, ed_verify, sig_message, base_mult, point_add, pubkey_of_seed,
                       scalar_to_int, int_to_scalar)
 
 AMHL = AMHLmod.AMHL
 PID = 'C18'
-ISOLATE = False
+ISOLATE = True      # one forked process per run: nothing a run does to process-global
+                    # state can reach another run, so every run replays on its own
 RUNS = {'quick': 12000, 'thorough': 250000}
 STEP_KEYS = ['steps']
+BATCH = 4           # runs per forked process (see core.execute_seq)
 COMPONENTS = {
     'real': ['setup_amhl', 'AMHL.setup', 'AMHL.setup_for', 'AMHL.check_setup', 'AMHL.release',
              'AMHL.verify_lock_key', 'AMHL.scalar_sum', 'release_left_amhl_lock',
@@ -39,7 +42,8 @@ REQUIRED_PROBES = ['n_%d' % k for k in range(2, 9)] + [
     'early_claim_attempt', 'wrong_hop_scalar', 'other_chain_scalar', 'crash_mid_cascade',
     'duplicate_signature_publication', 'partition_healed', 'with_refund_keys',
     'refund_after_timeout', 'refund_before_timeout', 'cascade_completed',
-    'corrupt_adapter_rejected', 'corrupt_publication_rejected', 'view_corrupted_probe']
+    'corrupt_adapter_rejected', 'corrupt_publication_rejected', 'view_corrupted_probe',
+    'same_seed_other_length']
 RTO = 400           # ms, retransmission timeout of the party stubs
 BASE = 20           # ms, base one-way latency
 HORIZON = 120_000   # ms of simulated time per run at most
@@ -59,6 +63,19 @@ def gen_plan(run_seed, idx, tier):
                        'sigfields': [{'sigfield%d' % k: rng.bytes(rng.choice([4, 32])).hex()
                                       for k in rng.sample([1, 2, 3, 4], rng.rng(1, 2))}
                                      for _ in range(8)]})
+    if len(chains) == 1 and rng.chance(1, 5):
+        # the same seed is used again for a route of another length (a wallet
+        # that re-plans a payment): setup must be a function of (seed, n) only
+        c2 = copy.deepcopy(chains[0])
+        c2['n'] = rng.choice([k for k in range(2, 9) if k != n])
+        c2['refund'] = False
+        c2['same_seed'] = True
+        if rng.chance(1, 2):
+            chains.append(c2)
+        else:
+            chains.insert(0, c2)
+            chains[1]['refund'] = False
+            chains[0]['refund'] = refund
     nparties = max(c['n'] for c in chains) + 1
     plan = {'property': PID, 'run_seed': run_seed, 'idx': idx,
             'knobs': {'fault_free': fault_free, 'thr': 60,
@@ -379,7 +396,7 @@ class Sim:
                 # delivered and probed, whatever happens is recorded, not judged
                 try:
                     ok = AMHL.check_setup(view, j, ch.n)
-                except Exception:
+                except LIB_ERRORS:
                     ok = False
             else:
                 ok = real('AMHL.check_setup', AMHL.check_setup, view, j, ch.n)
@@ -471,7 +488,7 @@ class Sim:
         if z is not None:
             try:
                 opens = base_mult(z) == ch.T_of(hop) and scalar_to_int(z) % L == ch.t_int[hop]
-            except Exception:
+            except LIB_ERRORS:
                 opens = False
         if damaged:
             valid = len(sig) == 64 and ed_verify(ch.pks[hop], sig_message(ch.sf[hop], int(ch.flags, 16)), sig)
@@ -505,7 +522,7 @@ class Sim:
             if w is not None and len(w) == 68:
                 try:
                     self.extracted[(c, hop)] = nb.crypto_core_ed25519_scalar_sub(sig[32:64], w[2:34])
-                except Exception:
+                except LIB_ERRORS:
                     pass
             # parties learn of it on their next tick (they poll the ledger)
 
@@ -567,7 +584,7 @@ class Sim:
             for z in (view[2], int_to_scalar(scalar_to_int(view[2]) * 2)):
                 try:
                     sig = T.decrypt_adapter(inbound, z)
-                except Exception:
+                except LIB_ERRORS:
                     continue
                 self.send(i, 'L', ('publish', 0, i - 1, sig, i, 'early', z))
         elif a == 'republish':
@@ -621,7 +638,7 @@ class Sim:
         elif how == 'sum' and len(mine) >= 2:
             zs = [nb.crypto_core_ed25519_scalar_add(self.extracted[mine[0]], self.extracted[mine[-1]])]
             run.probe('wrong_hop_scalar')
-        elif how == 'other_chain' and other:
+        elif how == 'other_chain' and other and not any(c.spec.get('same_seed') for c in self.chains):
             zs = [self.extracted[k] for k in other]
             run.probe('other_chain_scalar')
         elif how == 'neighbour_y':
@@ -641,7 +658,7 @@ class Sim:
                 continue
             try:
                 sig = T.decrypt_adapter(w, z)
-            except Exception:
+            except LIB_ERRORS:
                 continue
             self.deliver('L', ('publish', ch.ci, hop, sig, 'M', 'attack_' + how, z))
 
@@ -696,6 +713,20 @@ def execute(plan, run):
                           'claimed': sorted(ch.claimed), 'n': ch.n, 'events': events})
         run.ev('chain', ch.ci, ch.n, [(t, h, k) for t, h, k in ch.ledger])
         run.cell('end', ch.n, ch.spec['refund'], done, len(ch.refunded))
+    if not run.violations:
+        for ch in sim.chains:
+            # A1b: setup is a function of its arguments (P0 re-plans / restarts):
+            # the same call again returns the same tweak points and key
+            if ch.spec.get('same_seed'):
+                run.probe('same_seed_other_length')
+            refunds = {ch.pks[i]: ch.rpks[i] for i in range(ch.n)} if ch.spec['refund'] else None
+            again = real('setup_amhl', T.setup_amhl, bytes.fromhex(ch.spec['seed']), ch.pks[:ch.n],
+                         ch.flags, refunds, ch.spec['timeout'])
+            same = again['key'] == ch.key and all(
+                again[ch.pks[i]][2] == ch.hops[i][2] and again[ch.pks[i]][3] == ch.hops[i][3] and
+                again[ch.pks[i]][0].bytes == ch.hops[i][0].bytes for i in range(ch.n))
+            run.check('A1_setup_is_a_function_of_its_arguments', same,
+                      'C18/setup/repeated_setup_differs', detail={'n': ch.n})
     run.fault_free = bool(plan['knobs'].get('fault_free'))
     run.sample = {'chains': [{'n': c['n'], 'flags': c['flags'], 'refund': c['refund']} for c in plan['chains']],
                   'steps': plan['steps'][:6], 'net_faults': dict(list(plan['net']['faults'].items())[:5]),
